@@ -139,6 +139,9 @@ def run_case(case):
         inst, meta = case.get("inst_meta") or W.random_instance(rng, case["cls"])
         if case.get("inst_meta"):
             obs["c01.corpus_cases"] += 1
+        elif meta["mode"] == "edge" and int(hashlib.sha1(case["rs"].encode()).hexdigest(), 16) % 9 == 0:
+            # nodes of a str subclass whose str() is not the node (members of a (str, Enum) class): routes are made of the caller's nodes
+            inst["spec"]["str_subclass"] = True; obs["c01.str_subclass_node_cases"] += 1
         elif meta["mode"] == "edge" and rng.random() < 0.07:
             # an isolated node in an edge-weighted graph: it is a source and a sink at once, so the one-node route through it is a real
             # source-to-sink route of the caller's graph
@@ -160,6 +163,13 @@ def run_case(case):
             sample["solution"] = {k: (v[:3] if isinstance(v, list) else None) for k, v in (res.get("sol") or {}).items() if k in ("paths", "walks", "weights", "slacks")}
         for s, msg in M.ROUTES.drain():
             viol.append({"sig": s, "msg": msg + f" :: {models.brief(inst)}", "replay": rep})
+        if inst["spec"].get("str_subclass") and not res.get("solved"):
+            # the twin with plain string nodes: if that one is solved, the str-subclass graph (equal nodes) has routes to hand out as well
+            i2 = {"cls": inst["cls"], "spec": {k_: v_ for k_, v_ in inst["spec"].items() if k_ != "str_subclass"}, "kw": inst["kw"]}
+            r2 = models.run(i2, solver_options=SO); M.ROUTES.drain()
+            if r2.get("solved"):
+                viol.append({"sig": f"C01/str-subclass-nodes/no-routes-handed-out/{case['cls']}" + (f"/{res['exc'][0]}" if "exc" in res else ""),
+                             "msg": f"plain string nodes: solved; nodes of a str subclass (equal to those strings): {res.get('exc') or 'not solved'} :: {models.brief(inst)}", "replay": rep})
     elif case["kind"] == "probe":
         cyc = rng.random() < 0.5
         nodes, edges = gen.cyc_any(rng, 10) if cyc else gen.dag_any(rng, 12)
